@@ -263,6 +263,26 @@ class State:
 # ---------------------------------------------------------------------------------------------
 # The executor
 # ---------------------------------------------------------------------------------------------
+def _reaches_memory(v, depth=0):
+    """does a call argument give the callee access to caller-visible memory (a reference anywhere inside it)?  A callee
+    that gets scalars only cannot modify the state the claims talk about: it may stay opaque (arbitrary result)."""
+    if depth > 6:
+        return True
+    if isinstance(v, Ref):
+        return True
+    if isinstance(v, Obj):
+        ty = v.ty or ""
+        if re.search(r"(^|[<( ,])(&|\*(const|mut) |(std::sync::|std::rc::)?(Arc|Rc|Box)<)", ty) or "dyn " in ty or "closure@" in ty or ty in ("?", ""):
+            return True
+        return any(_reaches_memory(x, depth + 1) for x in v.fields.values())
+    if isinstance(v, VecV):
+        ety = v.elem_ty or ""
+        if re.search(r"(&|Arc<|Rc<|Box<)", ety):
+            return True
+        return any(_reaches_memory(x, depth + 1) for x in v.elems if x is not None)
+    return not isinstance(v, (Sym, Unit, FnItem)) and v is not None and not isinstance(v, (int, str))
+
+
 class Executor:
     def __init__(self, bodies, enums=None, cap=8, loop_bound=12, inline=None, summaries=None, havoc=None,
                  max_paths=4000, timeout_ms=20000):
@@ -1234,7 +1254,7 @@ class Executor:
             if seen is not None:
                 seen.add(cname)
             exp = getattr(self, "opaque_expected", None)
-            if exp is not None and cname not in exp:
+            if exp is not None and cname not in exp and any(_reaches_memory(a) for a in args):
                 depth = sum(1 for f in st.frames if getattr(f, "auto", False))
                 if depth >= 3 or ret_bb is None:
                     raise Unsupported("crate callee %s is not among this obligation's frame assumptions and cannot be inlined (depth %d)" % (cname[:80], depth))
